@@ -19,7 +19,15 @@ RULE = ("random simple polygons (star-shaped 3..12 vertices, comb/L-shaped non-c
         "UTF-8 file by name; offset centres at latitudes -89..89 and any longitude incl. on / next to the antimeridian, float and integer centres / offsets; "
         "points as float / int / numpy scalars in lists and tuples; num in 0..40 (0, 1, 2 included in every form); draws recorded with u=0 and 1-2^-53 "
         "injected in every form; conversions at latitudes 0, +-60, +-88, +-88.9, +-89 and random, scalar / list / array arguments, 1e-3..1e6 m; the "
-        "sibling sampler get_polygon_sample on the same polygons started at a random vertex. Non-trivial: num >= 1.")
+        "sibling sampler get_polygon_sample on the same polygons started at a random vertex. The same location used 2..4 times (round 8): by "
+        "2..4 get_location calls with the same spec object or with separate specs holding the same coordinate containers, by 2..4 groups of one "
+        "make_release configuration (same location object, or different centres sharing one offset container; dates differ so the table interleaves "
+        "the groups; with / without seed), and by 2..3 make_release calls with the same configuration (group list or flat form); forms metric-offset "
+        "(offset polygons of radius 10 m..5 km centred on the release centre or 1.5 / 3 / 10 radii away from it; offsets as lists, tuples, a 2-D float "
+        "array, two 1-D float arrays in a list / tuple, a transposed view of a vertex table, integer lists / arrays; centres as list / tuple / array), "
+        "polygon and multi-polygon (lists, tuples, 1-D float arrays, one 2-D / 3-D array) and a GeoJSON file given by name; every use is judged "
+        "against the location as it was given. Round-trip conversions of float arrays are also compared with the arrays the caller passed. "
+        "Non-trivial: num >= 1.")
 ASSUMPTIONS = ["the external `triangle` library's triangulation is validated per case (vertices, exact area sum), not proved to cover the polygon",
                "positions within 1e-11 (relative) outside an edge are counted as on the edge (floating-point evaluation of the convex combination)",
                "a GeoJSON property whose value is null is 'no value': the particle may carry None or NaN (a property the feature does not have: NaN)",
@@ -154,6 +162,21 @@ def conversion_checks(ctx, mk, lat):
         all(abs(qx[i] - xs[i]) <= 1e-13 * abs(xs[i]) and abs(qy[i] - ys[i]) <= 1e-13 * abs(ys[i]) for i in range(m))
     ctx.oracle(ok, "C03.conversion.not_inverse", SITE, "%s arguments (%r, %r) m -> deg -> (%r, %r) m at lat %r" % (kind, xs, ys, qx, qy, lat),
                dict(lat=lat, xs=xs, ys=ys, kind=kind))
+    if kind == "array":
+        # the caller's own check: convert its arrays forth and back and compare with the arrays it holds (the round trip must
+        # give back what the caller passed, also as the caller sees it afterwards); both directions, same 1e-13 as above
+        ok = all(abs(qx[i] - ax[i]) <= 1e-13 * abs(xs[i]) and abs(qy[i] - ay[i]) <= 1e-13 * abs(ys[i]) for i in range(m)) if np.shape(qx) == (m,) and np.shape(qy) == (m,) else False
+        ctx.oracle(ok, "C03.conversion.not_inverse", SITE, "float arrays (%r, %r) m -> deg -> (%r, %r) m at lat %r differ from the caller's arrays, which now hold (%r, %r)"
+                   % (xs, ys, qx, qy, lat, ax.tolist(), ay.tolist()), dict(lat=lat, xs=xs, ys=ys, kind="array, compared with the arrays passed"))
+        gls = [rng.choice([-1, 1]) * rng.uniform(0.1, 1.0) * 0.1 for _ in range(m)]; gps = [rng.choice([-1, 1]) * rng.uniform(0.1, 1.0) * 0.1 for _ in range(m)]
+        al2 = np.array(gls); ap2 = np.array(gps)
+        ux, uy = mk.degree_diff_to_metric(al2, ap2, lat)
+        vl, vp = mk.metric_diff_to_degrees(ux, uy, lat)
+        ok = np.shape(vl) == (m,) and np.shape(vp) == (m,) and \
+            all(abs(vl[i] - g) <= 1e-13 * abs(g) and abs(vl[i] - al2[i]) <= 1e-13 * abs(g) for i, g in enumerate(gls)) and \
+            all(abs(vp[i] - g) <= 1e-13 * abs(g) and abs(vp[i] - ap2[i]) <= 1e-13 * abs(g) for i, g in enumerate(gps))
+        ctx.oracle(ok, "C03.conversion.not_inverse", SITE, "float arrays (%r, %r) deg -> m -> (%r, %r) deg at lat %r; the caller's arrays now hold (%r, %r)"
+                   % (gls, gps, vl, vp, lat, al2.tolist(), ap2.tolist()), dict(lat=lat, dlons=gls, dlats=gps, kind="array"))
 
 
 def is_none(v):
@@ -253,6 +276,310 @@ def gen_geojson(ctx):
         flat = [(g, p, feats[g]["properties"] if g == f else pr) for g, p, pr in flat]
         tags.append("props.position_name")
     return doc, flat, feats, tags, clash
+
+
+def geojson_particles(ctx, out, flat, allprops, n, clash, cs, m):
+    """the first m particles of the table `out`: inside a polygon of the file, and carrying the properties of the feature
+    whose polygon contains them (independent join: the owner is found by point-in-polygon on the returned position)"""
+    for i in range(m):
+        x, y = out["longitude"][i], out["latitude"][i]
+        owners = [(f, props) for f, p, props in flat if geom.inside_tol(p, x, y)]
+        ctx.oracle(len(owners) >= 1, "C03.geojson.outside_polygon", SITE + "::get_location_file",
+                   "particle %d at (%r,%r) in no polygon" % (i, x, y), dict(cs, particle=i))
+        if len(owners) == 1:
+            f, props = owners[0]
+            for name in allprops:
+                if name == clash:
+                    continue
+                got = out.get(name, [None] * n)[i]
+                want = props.get(name, float("nan"))
+                same = (got == want) or (isinstance(got, float) and got != got and want != want)
+                if want is None:
+                    same = is_none(got)          # a null value: no value (ASSUMPTIONS)
+                else:
+                    same = same and prop_same(got, want)
+                ctx.oracle(same, "C03.geojson.property_join", SITE + "::get_location_file",
+                           "particle %d in feature %d: property %s = %r (%s), feature has %r (%s)" % (i, f, name, got, type(got).__name__, want, type(want).__name__), dict(cs, particle=i))
+
+
+# ------------------------------------------------------------------------------------------------------------------
+# The same location given more than once (round 8).  A location is written once and used by several groups of one
+# release configuration (the same cage shape at many centres), by a second call with the same configuration, or by
+# several get_location calls; the coordinate containers may be lists, tuples or numpy arrays (rows of a 2-D array, views).
+# Every use is judged against the polygon AS IT WAS GIVEN (plain numbers written down before the first use).
+
+def offset_polygon(rng, integer=False):
+    """offset polygon in metres: radius 10 m .. 5 km, centred on the release centre or up to ten radii away from it
+    (so that the release centre is inside, next to, or far outside the polygon)"""
+    r = rng.choice([10.0, 50.0, 500.0, 5000.0])
+    d = rng.choice([0.0, 0.0, 1.5, 3.0, 10.0]) * r
+    a = rng.uniform(0, 2 * math.pi)
+    cx = d * math.cos(a); cy = d * math.sin(a)
+    if integer:
+        return int_polygon(rng, int(round(cx)), int(round(cy)), r), d / r
+    return geom.random_polygon(rng, cx, cy, r), d / r
+
+
+OFFSET_CONTAINERS = ("list", "tuple", "array2d", "arrays", "tuple_of_arrays", "array_view", "intlist", "intarray")
+
+
+def offset_container(kind, off):
+    xs = [p[0] for p in off]; ys = [p[1] for p in off]
+    if kind in ("list", "intlist"):
+        return [list(xs), list(ys)]
+    if kind == "tuple":
+        return (tuple(xs), tuple(ys))
+    if kind in ("array2d", "intarray"):
+        return np.array([xs, ys])                      # float64 (int64 for whole metres): the rows are views of one array
+    if kind == "arrays":
+        return [np.array(xs, dtype=float), np.array(ys, dtype=float)]
+    if kind == "tuple_of_arrays":
+        return (np.array(xs, dtype=float), np.array(ys, dtype=float))
+    if kind == "array_view":
+        return np.array([[x, y] for x, y in zip(xs, ys)], dtype=float).T     # (2, m) transposed view of a vertex table
+    raise ValueError(kind)
+
+
+def centre_container(rng, clon, clat):
+    kind = rng.choice(["list", "list", "tuple", "array"])
+    return {"list": [clon, clat], "tuple": (clon, clat), "array": np.array([clon, clat])}[kind], kind
+
+
+def offset_centre(rng, integer=False):
+    clon = rng.choice([rng.uniform(-170, 170), rng.uniform(-170, 170), 179.9, -179.95, 180.0, -180.0, 0.0, 5.0])
+    clat = rng.choice([-89.0, -60.0, 0.0, 45.0, 60.0, 70.0, 89.0, rng.uniform(-89, 89), rng.uniform(-89, 89)])
+    if integer:
+        clon = int(round(clon)); clat = max(-88, min(88, int(round(clat))))
+    return clon, clat
+
+
+def offset_positions(ctx, mk, off, clon, clat, lon, lat, cs):
+    """metric-offset clause: the positions, converted back to metres around the centre, lie inside (or on the edge of) the
+    offset polygon `off` (plain numbers, as given).  Two judgements:
+    (a) with the package's own degree -> metre conversion (the inverse of the one that laid the polygon out).  Tolerance:
+        the conversions are exact to 1e-13 relative (conversion_checks); a position is centre + difference in degrees, each
+        of magnitude <= 180 degrees plus the polygon, so forming it, the convex combination of the vertices and taking the
+        centre off again cost a few roundings of 2.9e-14 degrees = at most 1e-8 m; 1e-6 m + 1e-9 of the polygon's extent
+        leaves two orders of magnitude;
+    (b) without any implementation conversion: whatever the metres per degree are, they lie between the smallest and the
+        largest radius of curvature of the WGS84 ellipsoid (ASSUMPTIONS), so the metre position lies in a known rectangle;
+        if that rectangle does not meet the polygon the position is outside under every admissible conversion."""
+    scale = max(max(abs(a), abs(b)) for a, b in off) + 1
+    tol = 1e-6 + 1e-9 * scale
+    c = math.cos(math.radians(clat)); k = math.pi / 180
+    for i in range(min(len(lon), len(lat))):
+        dlon = lon[i] - clon; dlat = lat[i] - clat
+        dx, dy = mk.degree_diff_to_metric(dlon, dlat, clat)
+        ok = geom.inside_exact(off, dx, dy) or geom.dist_to_boundary(off, dx, dy) <= tol
+        ctx.oracle(ok, "C03.offset.outside_offset_polygon", SITE + "::get_location_offset",
+                   "particle %d: metres (%r, %r) outside the offset polygon as given" % (i, dx, dy), dict(cs, particle=i))
+        x1, x2 = sorted((dlon * k * c * R_MIN * (1 - 1e-9), dlon * k * c * R_MAX * (1 + 1e-9)))
+        y1, y2 = sorted((dlat * k * R_MIN * (1 - 1e-9), dlat * k * R_MAX * (1 + 1e-9)))
+        mx = (x1 + x2) / 2; my = (y1 + y2) / 2
+        ok = geom.inside_exact(off, mx, my) or geom.dist_to_boundary(off, mx, my) <= math.hypot((x2 - x1) / 2, (y2 - y1) / 2) + tol
+        ctx.oracle(ok, "C03.offset.outside_offset_polygon_any_wgs84_radius", SITE + "::get_location_offset",
+                   "particle %d at (lon %r, lat %r), centre (%r, %r): between (%r, %r) m and (%r, %r) m from the centre for every radius of "
+                   "curvature of the ellipsoid, which does not meet the offset polygon as given" % (i, lon[i], lat[i], clon, clat, x1, y1, x2, y2),
+                   dict(cs, particle=i))
+
+
+def release_rows(out, gid):
+    """rows of make_release's table that belong to group `gid` (the table is sorted by date: groups are interleaved)"""
+    sel = [j for j, g in enumerate(out.get("gid", [])) if g == gid]
+    return [out["longitude"][j] for j in sel], [out["latitude"][j] for j in sel]
+
+
+def in_child(fn):
+    """run fn() in a forked child and return ("ok", result), ("exception", text) or ("killed", text)"""
+    import pickle
+    r, w = os.pipe()
+    pid = os.fork()
+    if pid == 0:
+        code = 1
+        try:
+            os.close(r)
+            try:
+                res = ("ok", fn())
+            except BaseException as e:
+                res = ("exception", "raised %r" % (e,))
+            with os.fdopen(w, "wb") as f:
+                pickle.dump(res, f)
+            code = 0
+        finally:
+            os._exit(code)
+    os.close(w)
+    with os.fdopen(r, "rb") as f:
+        data = f.read()
+    _, st = os.waitpid(pid, 0)
+    if os.WIFSIGNALED(st):
+        return "killed", "the process was killed by signal %d inside the implementation" % os.WTERMSIG(st)
+    try:
+        return pickle.loads(data)
+    except Exception as e:
+        return "exception", "no result from the child process (%r, exit status %r)" % (e, st)
+
+
+def reuse_cases(ctx, mk):
+    rng = ctx.rng
+    for c in range(ctx.n(120, 2400)):
+        form = rng.choice(["offset", "offset", "offset", "poly", "multi", "geojson"])
+        how = rng.choice(["get_location.same_spec", "get_location.shared_coords", "make_release.groups_same_spec",
+                          "make_release.groups_shared_coords", "make_release.twice"])
+        k = rng.choice([2, 2, 3, 4])
+        via_release = how.startswith("make_release")
+        nums = [rng.choice([1, 2, 3, 10, 25] if via_release else [1, 3, 10, 25, 0, 2]) for _ in range(k)]
+        ctx.case(key=("reuse", form, how, c), nontrivial=sum(nums) > 0)
+        ctx.branch("reuse.form." + form); ctx.branch("reuse." + how); ctx.size("reuse.uses", k)
+        # ---- the location(s): specs[i] is what use i is given; given[i] describes it in plain numbers
+        path = None
+        if form == "offset":
+            kind = rng.choice(OFFSET_CONTAINERS)
+            integer = kind in ("intlist", "intarray")
+            off, dist = offset_polygon(rng, integer)
+            off = [(int(a), int(b)) for a, b in off] if integer else [(float(a), float(b)) for a, b in off]
+            ctx.branch("reuse.offset.container." + kind)
+            ctx.branch("reuse.offset.centre_%s" % ("inside_or_near" if dist == 0 else "outside_%gr" % dist))
+            shared = offset_container(kind, off)
+            if how.endswith("same_spec") or how == "make_release.twice" and rng.random() < 0.5:
+                clon, clat = offset_centre(rng, integer)
+                cen, ckind = centre_container(rng, clon, clat)
+                ctx.branch("reuse.offset.centre_container." + ckind)
+                spec = dict(center=cen, offset=shared)
+                specs = [spec] * k; given = [(clon, clat)] * k
+            else:
+                given = [offset_centre(rng, integer) for _ in range(k)]
+                specs = []
+                for clon, clat in given:
+                    cen, ckind = centre_container(rng, clon, clat)
+                    ctx.branch("reuse.offset.centre_container." + ckind)
+                    specs.append(dict(center=cen, offset=shared))
+            cs0 = dict(form=form, how=how, container=kind, offset=off, centres=given, nums=nums)
+            site = SITE + "::get_location_offset"
+        elif form in ("poly", "multi"):
+            clon, clat, rr, ctag = gen_centre(rng)
+            polys = gen_polys(rng, k=1 if form == "poly" else rng.randrange(2, 4), clon=clon, clat=clat, r=rr)
+            cont = rng.choice(["list", "tuple", "numpy", "numpy", "array2d"])
+            if cont == "array2d" and (form == "multi" and len(set(len(p) for p in polys)) > 1):
+                cont = "numpy"
+            ctx.branch("reuse.poly.container." + cont)
+            conv = {"list": list, "numpy": lambda v: np.array(v, dtype=float), "tuple": tuple, "array2d": list}[cont]
+            if form == "poly":
+                spec = [conv([p[0] for p in polys[0]]), conv([p[1] for p in polys[0]])]
+            else:
+                spec = [[conv([p[0] for p in poly]) for poly in polys], [conv([p[1] for p in poly]) for poly in polys]]
+            if cont == "tuple":
+                spec = tuple(spec)
+            elif cont == "array2d":
+                spec = np.array(spec, dtype=float)           # (2, m) or (2, npoly, m): lon and lat are views of one array
+            if how.endswith("shared_coords"):
+                # separate location objects holding the same coordinate containers
+                specs = [type(spec)(spec) if isinstance(spec, (list, tuple)) else spec[:] for _ in range(k)]
+            else:
+                specs = [spec] * k
+            given = [None] * k
+            cs0 = dict(form=form, how=how, container=cont, polys=polys, nums=nums)
+            site = SITE + "::get_location"
+        else:
+            while True:
+                doc, flat, feats, tags, clash = gen_geojson(ctx)
+                if clash is None:
+                    break
+            with tempfile.NamedTemporaryFile("w", suffix=".geojson", encoding="utf-8", delete=False) as fh:
+                path = fh.name
+                json.dump(doc, fh, ensure_ascii=False)
+            specs = [path] * k; given = [None] * k
+            allprops = []
+            for f_ in feats:
+                for k_ in (f_.get("properties") or {}):
+                    if k_ not in allprops:
+                        allprops.append(k_)
+            cs0 = dict(form=form, how=how, geojson=doc, nums=nums)
+            site = SITE + "::get_location_file"
+        # ---- the uses: (group, num, lon, lat, full table or None) per use.  They run in a forked child process: a location that a
+        #      previous use has damaged can take the triangulation library (C code) down with a signal, which must be reported as
+        #      a failing input and not end the check.  All random choices are fixed here, before the fork.
+        seeds = [(ctx.sub_seed(), ctx.sub_seed()) for _ in range(k + 3)]
+        if via_release:
+            groups = []
+            for i in range(k):
+                d0 = "20%02d-%02d-%02d" % (rng.randrange(0, 30), rng.randrange(1, 13), rng.randrange(1, 29))
+                date = d0 if rng.random() < 0.6 else [d0, "2031-01-01T06"]
+                groups.append(dict(date=date, num=nums[i], location=specs[i], gid=i))
+            ncall = 1
+            conf = dict(groups=groups)
+            if how == "make_release.twice":
+                ncall = 2
+                if k == 2 and rng.random() < 0.5:
+                    conf = dict(groups[0]); ncall = 3 if rng.random() < 0.3 else 2       # flat form: one group, called again
+                    groups = [groups[0]]
+                    ctx.branch("reuse.make_release.flat")
+            if rng.random() < 0.5:
+                conf["seed"] = rng.randrange(1000)
+            cs0 = dict(cs0, dates=[g["date"] for g in groups], seed=conf.get("seed"), calls=ncall)
+
+        def do_uses():
+            import random
+            uses = []; errors = []; schedules = []
+            if not via_release:
+                for i in range(k):
+                    try:
+                        with RngRecorder(seeds[i][0], ibmrun.tail_injector(random.Random(seeds[i][1]), 0.1)) as rec:
+                            out = mk.get_location(specs[i], nums[i])
+                    except Exception as e:
+                        errors.append((site, "use %d of the same location raised %r" % (i, e), dict(use=i)))
+                        break
+                    schedules.append((i, nums[i], rec.schedule()))
+                    uses.append((i, nums[i], out["longitude"], out["latitude"], out))
+            else:
+                for call in range(ncall):
+                    try:
+                        with RngRecorder(seeds[call][0], ibmrun.tail_injector(random.Random(seeds[call][1]), 0.1)):
+                            out = mk.make_release(conf)
+                    except Exception as e:
+                        errors.append((SITE + "::make_release", "call %d of make_release with the same configuration raised %r" % (call, e), dict(call=call)))
+                        break
+                    for g in groups:
+                        lon, lat = release_rows(out, g["gid"])
+                        uses.append((g["gid"], g["num"], lon, lat, None))
+            return uses, errors, schedules
+
+        try:
+            status, res = in_child(do_uses)
+        finally:
+            if path is not None and os.path.exists(path):
+                os.unlink(path)
+        if status != "ok":
+            ctx.oracle(False, "C03.reuse.raises", site, "using the same location %d times: %s" % (k, res), cs0)
+            continue
+        uses, errors, schedules = res
+        for site_, detail, extra in errors:
+            ctx.oracle(False, "C03.reuse.raises", site_, detail, dict(cs0, **extra))
+        for i, n, sched in schedules:
+            exp = [("rand", (n,)), ("rand", (2 * n,))]
+            if [tuple(x) for x in sched] != exp:
+                ctx.disagreement("get_location.%s.reuse.draw_schedule" % form, "model declares %r, implementation requested %r" % (exp, sched), dict(cs0, use=i))
+            else:
+                ctx.schedule_matches += 1
+        # ---- every use against the location as given
+        for u, (i, n, lon, lat, table) in enumerate(uses):
+            cs = dict(cs0, use=u, group=i, n=n)
+            what = "reuse." + form
+            ctx.oracle(len(lon) == n and len(lat) == n, "C03.%s.count" % what, site,
+                       "use %d: %d particles requested, %d / %d returned" % (u, n, len(lon), len(lat)), cs)
+            if form == "offset":
+                clon, clat = given[i]
+                offset_positions(ctx, mk, off, clon, clat, lon, lat, cs)
+            elif form in ("poly", "multi"):
+                check_positions(ctx, None, None, mk, polys, lat, lon, None, None, cs, what)
+            elif table is not None:
+                lens = [len(table[k_]) for k_ in ["longitude", "latitude"] + [a for a in allprops if a in table]]
+                ctx.oracle(all(l == n for l in lens), "C03.geojson.count", site, "%d particles requested, returned columns have lengths %r" % (n, lens), cs)
+                geojson_particles(ctx, table, flat, allprops, n, None, cs, min(lens))
+            else:
+                # through make_release: positions only (its table fills absent values with 0; the columns are property C01's)
+                for j in range(min(len(lon), len(lat))):
+                    ctx.oracle(any(geom.inside_tol(p, lon[j], lat[j]) for _, p, _ in flat), "C03.geojson.outside_polygon", site,
+                               "particle %d of group %d at (%r,%r) in no polygon" % (j, i, lon[j], lat[j]), dict(cs, particle=j))
 
 
 def run(ctx):
@@ -394,6 +721,7 @@ def run(ctx):
                 ok = geom.inside_exact(off, dx, dy) or geom.dist_to_boundary(off, dx, dy) <= 1e-6 * scale
                 ctx.oracle(ok, "C03.offset.outside_offset_polygon", SITE + "::get_location_offset",
                            "particle %d: metres (%r, %r) outside the offset polygon" % (i, dx, dy), dict(cs, particle=i))
+            offset_positions(ctx, mk, off, clon, clat, out["longitude"], out["latitude"], cs)
             # mutual inverses
             dx0 = ctx.rng.uniform(-1e4, 1e4); dy0 = ctx.rng.uniform(-1e4, 1e4)
             dl, dp = mk.metric_diff_to_degrees(dx0, dy0, clat)
@@ -448,26 +776,8 @@ def run(ctx):
                 ctx.oracle(False, "C03.geojson.property_replaces_position", SITE + "::get_location",
                            "a feature property called %r replaces the particles' %s: %r" % (clash, clash, col[:5]), cs)
                 continue
-        m = min(lens.values())
-        for i in range(m):
-            x, y = out["longitude"][i], out["latitude"][i]
-            owners = [(f, props) for f, p, props in flat if geom.inside_tol(p, x, y)]
-            ctx.oracle(len(owners) >= 1, "C03.geojson.outside_polygon", SITE + "::get_location_file",
-                       "particle %d at (%r,%r) in no polygon" % (i, x, y), dict(cs, particle=i))
-            if len(owners) == 1:
-                f, props = owners[0]
-                for name in allprops:
-                    if name == clash:
-                        continue
-                    got = out.get(name, [None] * n)[i]
-                    want = props.get(name, float("nan"))
-                    same = (got == want) or (isinstance(got, float) and got != got and want != want)
-                    if want is None:
-                        same = is_none(got)          # a null value: no value (ASSUMPTIONS)
-                    else:
-                        same = same and prop_same(got, want)
-                    ctx.oracle(same, "C03.geojson.property_join", SITE + "::get_location_file",
-                               "particle %d in feature %d: property %s = %r (%s), feature has %r (%s)" % (i, f, name, got, type(got).__name__, want, type(want).__name__), dict(cs, particle=i))
+        geojson_particles(ctx, out, flat, allprops, n, clash, cs, min(lens.values()))
+    reuse_cases(ctx, mk)
     if drv.available:
         rep = drv.run()
         for j, lat, lon, polynum, pidx, cs in pend:
